@@ -62,6 +62,7 @@ class Ctx:
 
 CTX = None
 QUERY_TIMEOUT_MS = 20000
+MAX_DECISIONS_PER_PATH = 4000
 
 
 def ctx():
@@ -91,6 +92,11 @@ def branch(cond):
     if z3.is_false(cond):
         return False
     if c.dead:
+        return False
+    if c.pos >= MAX_DECISIONS_PER_PATH:
+        # a loop whose trip count grows with a symbolic value: stop forking, the path is reported as inconclusive (never as a pass)
+        c.dead = True
+        c.inconclusive.append("path exceeded %d decisions (loop on a symbolic condition?)" % MAX_DECISIONS_PER_PATH)
         return False
     if c.pos < len(c.prefix):
         e = c.prefix[c.pos]
